@@ -208,6 +208,149 @@ def r22_xor_zip(toks, log):
         out.append(t); i += 1
     return out
 
+def r23b_str_literals(toks, log):
+    """R23b (str_ops items): a string literal -> call of a generated `external_body fn verif_str_<sha>() -> &'static str` whose postcondition
+    lists the literal's UTF-8 bytes (read from /repo)."""
+    import ast, hashlib
+    out = []
+    fns = {}
+    for i, t in enumerate(toks):
+        if t.kind == "str" and t.text.startswith('"'):
+            val = ast.literal_eval(t.text).encode("utf-8")
+            name = "verif_str_" + hashlib.sha256(val).hexdigest()[:10]
+            seen = log.__dict__.setdefault("lits", set())
+            if name not in fns and name not in seen:
+                seen.add(name)
+                seq = ", ".join("%du8" % b for b in val)
+                fns[name] = "#[verifier::external_body] fn %s() -> (r: &'static str) ensures strb(r) =~= seq![%s] { %s }\n" % (name, seq, t.text)
+            log.add("R23", t, t.text)
+            out += gen(name + "()", t)
+            continue
+        out.append(t)
+    if fns and out:
+        pre = []
+        for name in sorted(fns):
+            pre += gen(fns[name], out[0], "\n")
+        lead = out[0].ws
+        out[0] = out[0].clone(ws="\n")
+        pre[0] = pre[0].clone(ws=lead)
+        out = pre + out
+    return out
+
+STR_METHODS = {"rfind": "v_rfind", "find": "v_find", "ends_with": "v_ends_with", "len": "v_len", "to_owned": "v_to_owned", "parse": "v_parse"}
+def r23_str_ops(toks, log, names):
+    """R23 (only for items whose selector says `str_ops: [names]`): std `str` operations on the listed `&str` variables become calls of the
+    byte-level shim trait VStr (shims/strs.rs): `.rfind(` -> `.v_rfind(` .. on any receiver chain starting at a listed name,
+    `[&]X[a..b]` -> `X.v_sub(a, b)` (missing bounds: 0 / X.v_len()), `"lit" == X` -> `X.v_eq("lit")`."""
+    out = []
+    i = 0
+    n = len(toks)
+    def is_range_index(k):
+        # toks[k] == '[' ; returns (close, lo_toks, hi_toks) if the content is a range
+        c = match_close(toks, k)
+        depth = 0
+        for j in range(k + 1, c):
+            if toks[j].text in OPEN: depth += 1
+            elif toks[j].text in (")", "]", "}"): depth -= 1
+            elif toks[j].text == ".." and depth == 0:
+                return c, toks[k + 1:j], toks[j + 1:c]
+        return None
+    while i < n:
+        t = toks[i]
+        # "lit" == X
+        if t.kind == "str" and i + 2 < n and toks[i + 1].text == "==" and toks[i + 2].kind == "id" and toks[i + 2].text in names:
+            log.add("R23", t, "str ==")
+            out += gen(toks[i + 2].text + ".v_eq(", t, t.ws) + [t.clone(ws="")] + gen(")", t, "")
+            i += 3
+            continue
+        # [&] X [ range ]
+        amp = t.text == "&" and i + 2 < n and toks[i + 1].kind == "id" and toks[i + 1].text in names and toks[i + 2].text == "["
+        bare = t.kind == "id" and t.text in names and i + 1 < n and toks[i + 1].text == "[" and (i == 0 or toks[i - 1].text not in (".", "::"))
+        if amp or bare:
+            k = i + 2 if amp else i + 1
+            r = is_range_index(k)
+            if r:
+                c, lo, hi = r
+                x = toks[k - 1]
+                log.add("R23", t, "str range index")
+                lo_t = r23_str_ops([y.clone() for y in lo], log, names) if lo else gen("0", t, "")
+                hi_t = r23_str_ops([y.clone() for y in hi], log, names) if hi else gen(x.text + ".v_len()", t, "")
+                out += gen(x.text + ".v_sub(", t, t.ws) + lo_t + gen(",", t, "") + hi_t + gen(")", t, "")
+                i = c + 1
+                continue
+        # .method(  after a receiver: only rename; the receiver types are checked by rustc (VStr is implemented for str only)
+        if t.text == "." and i + 2 < n and toks[i + 1].kind == "id" and toks[i + 1].text in STR_METHODS and toks[i + 2].text == "(":
+            # receiver must start at a listed name: walk back over `name`, `name.v_sub(...)`
+            j = len(out) - 1
+            ok = False
+            if j >= 0 and out[j].kind == "id" and out[j].text in names:
+                ok = True
+            elif j >= 0 and out[j].text == ")":
+                # find matching '(' in out
+                d = 0
+                while j >= 0:
+                    if out[j].text == ")": d += 1
+                    elif out[j].text == "(":
+                        d -= 1
+                        if d == 0: break
+                    j -= 1
+                if j >= 3 and out[j - 1].text == "v_sub" and out[j - 2].text == "." and out[j - 3].text in names:
+                    ok = True
+            if ok:
+                log.add("R23", t, "." + toks[i + 1].text)
+                out.append(t)
+                name = STR_METHODS[toks[i + 1].text]
+                if name in ("v_rfind", "v_find", "v_ends_with"):
+                    # the pattern literal decides the shim: char -> _c, string -> _s
+                    name += "_c" if toks[i + 3].kind == "chr" else "_s"
+                out.append(toks[i + 1].clone(text=name))
+                i += 2
+                continue
+        out.append(t); i += 1
+    return out
+
+def r24_hoist_local_types(toks, log):
+    """R24: an `enum X { .. }` / `struct X { .. }` item statement inside a fn body (Verus: "internal item statements" unsupported) is moved in front
+    of the enclosing item, unchanged."""
+    i = 0
+    n = len(toks)
+    # only for pieces that are a single fn item
+    k = 0
+    while k < n and not (toks[k].kind == "id" and toks[k].text == "fn"):
+        if toks[k].text in ("impl", "mod", "trait", "struct", "enum"):
+            return toks
+        k += 1
+    if k >= n:
+        return toks
+    body = k
+    while body < n and toks[body].text != "{":
+        if toks[body].text in ("(", "["):
+            body = match_close(toks, body)
+        body += 1
+    if body >= n:
+        return toks
+    close = match_close(toks, body)
+    hoisted = []
+    out_body = []
+    j = body + 1
+    while j < close:
+        t = toks[j]
+        if t.kind == "id" and t.text in ("enum", "struct") and toks[j + 1].kind == "id" and toks[j + 2].text == "{" and toks[j - 1].text in (";", "{", "}"):
+            c = match_close(toks, j + 2)
+            log.add("R24", t, "local %s %s hoisted" % (t.text, toks[j + 1].text))
+            item = [x.clone() for x in toks[j:c + 1]]
+            item[0] = item[0].clone(ws="\n")
+            hoisted += item
+            j = c + 1
+            continue
+        out_body.append(t); j += 1
+    if not hoisted:
+        return toks
+    first = toks[0]
+    hoisted[0] = hoisted[0].clone(ws=first.ws)
+    rest = [first.clone(ws="\n")] + toks[1:body + 1] + out_body + toks[close:]
+    return hoisted + rest
+
 def r6_derives_and_attrs(toks, log, keep_derives=None):
     out = []
     i = 0
@@ -651,6 +794,10 @@ def apply_item_rewrites(toks, log, opts=None):
     toks = r14_concat(toks, log)
     toks = r21_raw_parts(toks, log)
     toks = r22_xor_zip(toks, log)
+    toks = r24_hoist_local_types(toks, log)
+    if opts.get("str_ops"):
+        toks = r23_str_ops(toks, log, opts["str_ops"])
+        toks = r23b_str_literals(toks, log)
     toks = r4_dyn(toks, log)
     toks = r16_pattern_params(toks, log)
     toks = r16b_closure_wildcards(toks, log)
